@@ -67,8 +67,10 @@
 #include <fcppt/variant/holds_type.hpp>
 #include <fcppt/variant/object.hpp>
 
+#include <cstdint>
 #include <functional>
 #include <string>
+#include <vector>
 
 using namespace verif;
 using namespace c17;
@@ -379,6 +381,13 @@ RegLaws<cref, Order::documented, false> const r_creference{{
 
 // ---------------------------------------------------------------- shared_ptr<int>
 using sptr = fcppt::shared_ptr<int>;
+// the objects the pointers of the value set refer to, in creation order (observable component =
+// which object; the documented order is std::less on the addresses)
+std::vector<int const *> &shared_objects()
+{
+  static std::vector<int const *> v;
+  return v;
+}
 RegLaws<sptr, Order::documented, false> const r_shared{{
     .name = "shared_ptr<int>",
     .build =
@@ -388,6 +397,7 @@ RegLaws<sptr, Order::documented, false> const r_shared{{
           for (int i = 0; i < 3; ++i)
           {
             sptr const p = fcppt::make_shared_ptr<int>(payload[i]);
+            shared_objects().push_back(p.get_pointer());
             put(e, p, 0, "make_shared_ptr(" + s(payload[i]) + ") object " + s(i));
             put(e, sptr{p}, 1, "copy of object " + s(i));
             sptr q = fcppt::make_shared_ptr<int>(0);
@@ -395,11 +405,17 @@ RegLaws<sptr, Order::documented, false> const r_shared{{
             put(e, q, 2, "another pointer assigned object " + s(i));
             put(e, sptr{p, p.get_pointer()}, 3, "aliasing constructor on object " + s(i));
           }
-          put(e, sptr{fcppt::make_unique_ptr<int>(1)}, 4, "from unique_ptr holding 1");
+          sptr const u{fcppt::make_unique_ptr<int>(1)};
+          shared_objects().push_back(u.get_pointer());
+          put(e, u, 4, "from unique_ptr holding 1 (object 3)");
         },
-    // the address is the observable component; the documented order is std::less on it
-    .obs = [](sptr const &p) { return Ints{static_cast<i64>(reinterpret_cast<std::uintptr_t>(p.get_pointer()))}; },
-    .key = {},
+    .obs =
+        [](sptr const &p) {
+          for (std::size_t i = 0; i < shared_objects().size(); ++i)
+            if (shared_objects()[i] == p.get_pointer()) return Ints{static_cast<i64>(i)};
+          return Ints{-1};
+        },
+    .key = [](sptr const &p) { return Ints{static_cast<i64>(reinterpret_cast<std::uintptr_t>(p.get_pointer()))}; },
     .hashes = {{"shared_ptr_hash", [](sptr const &p) { return fcppt::shared_ptr_hash<sptr>{}(p); }},
                {"std::hash", [](sptr const &p) { return std::hash<sptr>{}(p); }}},
     .equalities = {}}};
